@@ -72,10 +72,10 @@ def _model(ctx):
     r = ctx.tlc("SharedFont", timeout=600, label="SharedFont exhaustive N=2 K=1, all 22 operations")
     if not r.ok:
         raise vlib.Infra("SharedFont.tla violates %s on the model -- the spec is wrong:\n%s" % (r.violated, r.error_text[:1500]))
-    r = ctx.tlc("SharedFont", cfg="SharedFontK2.cfg", timeout=900, label="SharedFont exhaustive N=2 K=2, 5 operations")
+    r = ctx.tlc("SharedFont", cfg="SharedFontK2.cfg", timeout=900, label="SharedFont exhaustive N=2 K=2, 4 operations")
     if not r.ok:
         raise vlib.Infra("SharedFont.tla (K=2) violates %s on the model:\n%s" % (r.violated, r.error_text[:1500]))
-    bounds = {"N": [2], "K": [1, 2], "ops_K1": 22, "ops_K2": 5, "interleaving": "single abstract accesses"}
+    bounds = {"N": [2], "K": [1, 2], "ops_K1": 22, "ops_K2": 4, "interleaving": "single abstract accesses"}
     if not ctx.quick():
         k2 = _cfg("SharedFontK2.cfg")
         seven = '{"Write", "AsCFFWrite", "Subset", "Clone", "MakeGlyphNames", "Layout", "ExplainGsub"}'
@@ -92,6 +92,12 @@ def _model(ctx):
             if not r.ok:
                 raise vlib.Infra("SharedFont.tla (%s) violates %s on the model" % (label, r.violated))
         bounds.update({"N": [2, 3], "thorough": [x[0] for x in runs]})
+        r = ctx.tlc("SharedFont", coverage=True, timeout=900, label="SharedFont N=2 K=1 with -coverage 1")
+        if not r.ok:
+            raise vlib.Infra("coverage run violated %s" % r.violated)
+        if r.coverage_zero:
+            raise vlib.Infra("vacuous actions in SharedFont.tla (never taken): %s" % r.coverage_zero)
+        ctx.cov["vacuous_actions"] = []
     ctx.cov["exhaustive"] = True
     ctx.cov["bounds"] = bounds
 
@@ -99,6 +105,8 @@ def _model(ctx):
     neg = _cfg("SharedFontNeg.cfg")
     table = {}
     for variant, expect in VARIANTS.items():
+        if ctx.quick() and variant not in ("headpatch", "lazyrev", "scratch"):
+            continue        # the three hidden writes the property names; all five in the thorough tier
         base = _set_const(neg, Variant='"%s"' % variant)
         r = ctx.tlc("SharedFont", cfg="SFneg.cfg", files={"SFneg.cfg": base}, timeout=600,
                     label="negative configuration %s (must fail)" % variant)
@@ -126,7 +134,7 @@ def _model(ctx):
 def _combos(ctx):
     # (N, K, MaxPar, behaviours, depth)
     if ctx.quick():
-        return [(2, 2, 2, 45, 120), (2, 3, 2, 27, 160), (4, 2, 2, 18, 200), (4, 2, 4, 27, 200), (16, 2, 16, 18, 800)]
+        return [(2, 2, 2, 45, 120), (2, 3, 2, 36, 160), (4, 2, 4, 36, 200), (16, 2, 16, 18, 800)]
     return [(2, 2, 2, 260, 120), (2, 3, 2, 200, 160), (3, 2, 3, 130, 160), (4, 2, 2, 130, 200), (4, 2, 4, 200, 200),
             (4, 3, 4, 104, 300), (16, 2, 4, 52, 800), (16, 2, 16, 104, 800)]
 
@@ -283,6 +291,21 @@ def _violation(ctx, st, what, sig, case):
     ctx.violation(what, sig=sig, case=case)
 
 
+def _alone(ctx, st, font, op):
+    """80 more runs of one operation alone on one font; the digests become "alone" events of that font."""
+    if st.alone_dir is None:
+        st.alone_dir = ctx.subdir("alone")       # (called from worker threads: one directory, distinct files)
+    out = os.path.join(st.alone_dir, "alone-%s-%s.json" % (font, op))
+    rc, err = _harness(ctx, [st.bin, "alone", font, op, "80", out])
+    if rc != 0:
+        raise vlib.Infra("alone run failed: " + err[-1500:])
+    seen = json.load(open(out))
+    st.alone_done.add((font, op))
+    for dg in seen:
+        st.extra_alone.setdefault(font, []).append({"ev": "alone", "font": font, "op": op, "digest": dg})
+    return seen
+
+
 class State:
     """Per-run data needed by the triage of a rejected event."""
 
@@ -293,8 +316,9 @@ class State:
         self.cases = {}     # id -> case
         self.reported = {}  # signature -> number of times seen
         self.confirmed = {} # rejected-event key -> times (reproduced once, then only counted)
-        self.budget = 6     # reproductions in isolation per run
         self.skipped = 0
+        self.alone_done = set()
+        self.alone_dir = None
         self.benign = []
         self.extra_alone = {}
 
@@ -322,10 +346,9 @@ def _reproduce(ctx, st, font, bad, events_of_font):
     if pre in st.confirmed:
         st.confirmed[pre] += 1
         return True        # the same event kind/operation/location was already reproduced on another font
-    if st.budget <= 0:
+    if len(st.reported) >= 6:
         st.skipped += 1
-        return True        # enough reproductions for one run; further rejected events are only counted
-    st.budget -= 1
+        return True        # six distinct violations are reported; further rejected events are only counted
     n0 = len(ctx.violations) + sum(st.reported.values())
     try:
         return _reproduce1(ctx, st, font, bad, events_of_font)
@@ -360,7 +383,7 @@ def _reproduce1(ctx, st, font, bad, events_of_font):
             ops.append("Clone")      # the other party read data shared with the font
         ops = ops or ["Write"]
         a, b = (ops + ops)[:2]
-        case = {"id": 900001, "n": 2, "k": 1, "maxpar": 2, "prog": [[a], [b]],
+        case = {"id": 900001, "n": 2, "k": 1, "maxpar": 2, "prog": [[a], [b]], "fresh": True,
                 "sched": [["S", 1], ["S", 2], ["F", 1], ["F", 2]]}
         evs, races, fatal = _single_case_trace(ctx, st, font, case, 12, "race")
         if not races and not fatal:
@@ -388,18 +411,15 @@ def _reproduce1(ctx, st, font, bad, events_of_font):
             raise vlib.Infra("rejected %s event without a case: %r" % (kind, bad))
         if kind == "conc":
             # is the digest one the call also returns when run alone?
-            d = ctx.subdir("alone")
-            op = os.path.join(d, "alone.json")
-            rc, err = _harness(ctx, [st.bin, "alone", font, bad["op"], "80", op])
-            if rc != 0:
-                raise vlib.Infra("alone run failed: " + err[-1500:])
-            seen = json.load(open(op))
+            seen = _alone(ctx, st, font, bad["op"])
             if bad["digest"] in seen:
                 st.benign.append({"font": font, "op": bad["op"], "alone_results": len(seen)})
-                st.extra_alone.setdefault(font, [])
-                for dg in seen:
-                    st.extra_alone[font].append({"ev": "alone", "font": font, "op": bad["op"], "digest": dg})
-                return False     # caller re-validates with the larger run-alone set
+                # the operation is not a function when run alone: sample its run-alone results on every font
+                others = [f for f in st.fonts if f != font and bad["op"] in st.fonts[f]["ops"]
+                          and (f, bad["op"]) not in st.alone_done]
+                with concurrent.futures.ThreadPoolExecutor(max_workers=max(2, min(8, ctx.workers // 2))) as ex:
+                    list(ex.map(lambda f: _alone(ctx, st, f, bad["op"]), others))
+                return False     # caller re-validates with the larger run-alone sets
         evs, races, fatal = _single_case_trace(ctx, st, font, case, 25, kind)
         if fatal:
             _violation(ctx, st, "concurrent calls crash the process on shared font %s: fatal error: %s (operations on the "
@@ -499,7 +519,7 @@ def run(ctx):
         cp = os.path.join(d, "cases-%s.ndjson" % f)
         vlib.write_ndjson(cp, per_font[f])
         rl = os.path.join(d, "race-%s" % f)
-        fatal = _run_font(ctx, st.bin_race, f, cp, tp, 2, racelog=rl)
+        fatal = _run_font(ctx, st.bin_race, f, cp, tp, 3, racelog=rl)
         return job, tp, fatal, _parse_races(rl)
 
     traces = {}
@@ -570,6 +590,8 @@ def run(ctx):
     multi = sorted("%s/%s" % x for x, v in nd.items() if len(v) > 1)
     if multi:
         ctx.notes.append("run-alone results differ between repetitions (outside C16): " + ", ".join(multi[:20]))
+    for note in ctx.notes:
+        ctx.log("note:", note[:600])
     for k in order:
         for e in st_traces[k]:
             if e["ev"] == "seq" and e["digest"] != "n/a":
@@ -637,6 +659,9 @@ def _judge(ctx, st, traces, ncases):
         handled = _reproduce(ctx, st, fontmap[k], allev[line - 1], evs)
         i = remaining.index(k)
         remaining = remaining[i + 1:] if handled else remaining[i:]
+    if not ctx.violations and not ctx.known_hits:
+        raise vlib.Infra("trace validation did not settle after 14 rejected events (%d processes not judged); "
+                         "benign so far: %s" % (len(remaining), json.dumps(st.benign)[:1500]))
     ctx.notes.append("trace validation stopped after 14 rejected events; %d processes not judged" % len(remaining))
 
 
